@@ -14,6 +14,8 @@ independent owner-matching questions (harness "match").  Integer tokens only.
   pdel ru n uid*
   pupd oldU newU hasOld <pod> hasNew <pod>
   hadd <hpod> | hupd <hpod> <hpod> | hdel <hpod>
+  <xpod> = uid node phase annKind annUid empty q0 q1 q2                                                  (9)
+  xadd <xpod> | xupd <xpod> <xpod> | xdel objKind <xpod>      (informer objects: annotation / phase shapes)
       each followed by the dump:  `i uid node phase matchable n0 n1 n2 a0 a1 a2 k pod*` per reservation (by uid),
       `on`/`mt`/`al` + sorted (node uid) pairs, `fe node uid*` for nodes 1..3
   fit ru q0 q1 q2 p0 p1 p2 prePods  -> `fit pods f0 f1 f2` | `fit none`
@@ -45,6 +47,12 @@ def parseHPod : List Int → Option HPod
   | [uid, node, term, ra, empty, q0, q1, q2] =>
     some { pod := { uid := uid.toNat, empty := empty != 0, req := vecOf [q0, q1, q2] },
            node := node.toNat, term := term != 0, rAlloc := ra.toNat }
+  | _ => none
+
+def parseXPod : List Int → Option XPod
+  | [uid, node, phase, ak, au, empty, q0, q1, q2] =>
+    some { pod := { uid := uid.toNat, empty := empty != 0, req := vecOf [q0, q1, q2] },
+           node := node.toNat, phase := phase.toNat, annKind := ak.toNat, annUid := au.toNat }
   | _ => none
 
 def insNat (x : Nat) : List Nat → List Nat
@@ -144,6 +152,24 @@ def stepLine (c : Cache) (line : String) : Cache × List String :=
     match (ints? rest).bind parseHPod with
     | some p => let c' := podDelete c p; (c', dump c')
     | none => bad
+  | "xadd" :: rest =>
+    match (ints? rest).bind parseXPod with
+    | some p => let c' := xpodUpdate c none p; (c', dump c')
+    | none => bad
+  | "xupd" :: rest =>
+    match ints? rest with
+    | some l =>
+      match parseXPod (l.take 9), parseXPod (l.drop 9) with
+      | some po, some pn => let c' := xpodUpdate c (some po) pn; (c', dump c')
+      | _, _ => bad
+    | none => bad
+  | "xdel" :: rest =>
+    match ints? rest with
+    | some (k :: l) =>
+      match parseXPod l with
+      | some p => let c' := xpodDelete c k.toNat p; (c', dump c')
+      | none => bad
+    | _ => bad
   | "fit" :: rest =>
     match ints? rest with
     | some [ru, q0, q1, q2, p0, p1, p2, pp] =>
